@@ -26,7 +26,17 @@ PASSWORDS = {
     "x": "\u043f\u0430\u0440\u043e\u043b\u044c",         # not representable in PDFDocEncoding
     "c": "bad\u0007pw",                                  # contains a character SASLprep prohibits
     "s": "\u00ad",                                       # SASLprep maps it to the empty password
+    # long AND non-ASCII: truncation happens on the BYTES of the encoded password
+    "N": "a" + "\u00e9" * 70,                            # 71 characters, 141 UTF-8 bytes (> 127 bytes, < 127 characters)
+    "N2": "a" + "\u00e9" * 63 + "\u00fc" * 10,           # same first 127 UTF-8 bytes (and first 32 Latin-1 bytes) as N
+    "P": "\u00e9" * 130,                                 # 130 characters, 260 UTF-8 bytes
+    # the 32-byte boundary of R2-R4 (pad or truncate to 32 bytes)
+    "B31": "B" + "0123456789" * 3,                        # 31 bytes
+    "B32": "B" + "0123456789" * 3 + "y",                  # 32 bytes
+    "B33": "B" + "0123456789" * 3 + "yx",                 # 33 bytes: same first 32 bytes as B32
 }
+assert len(PASSWORDS["N"].encode("utf-8")) == 141 and PASSWORDS["N"].encode("utf-8")[:127] == PASSWORDS["N2"].encode("utf-8")[:127]
+assert [len(PASSWORDS[k]) for k in ("B31", "B32", "B33")] == [31, 32, 33]
 
 PERM_BITS = {"print": 4, "modify": 8, "extract": 16}
 # all reserved-one bits set, bits 1-2 clear, the remaining assignable bits (6, 9-12) alternate
